@@ -157,19 +157,22 @@ qb_array_index(struct qb_array * a, int32_t idx, void **element_out)
 			}
 			bin_alloced = QB_TRUE;
 		}
+		/* fetch the bin pointer while the lock still protects the bin
+		 * table: a concurrent grow may realloc (move and free) it */
+		bin = a->bin[b];
 		/* new_bin_cb() needs to be called unlocked so can't extend the lock after the if block */
 		(void)qb_thread_unlock(a->grow_lock);
 		if (bin_alloced && a->new_bin_cb) {
 			a->new_bin_cb(a, b);
 		}
 	} else {
+		bin = a->bin[b];
 		(void)qb_thread_unlock(a->grow_lock);
 	}
 
 	elem = ELEM_NUM_GET(idx);
 	assert(elem < MAX_ELEMENTS_PER_BIN);
 
-	bin = a->bin[b];
 	*element_out = (bin + (a->element_size * elem));
 
 	return 0;
